@@ -2,6 +2,7 @@
 
 from __future__ import annotations
 
+import re
 from sys import maxsize
 from typing import TYPE_CHECKING
 
@@ -13,6 +14,9 @@ __all__ = [
     "is_printable_as_block_string",
     "print_block_string",
 ]
+
+# the line terminators of the GraphQL specification (and no other characters)
+_re_line_terminator = re.compile(r"\r\n|[\n\r]")
 
 
 def dedent_block_string_lines(lines: Collection[str]) -> list[str]:
@@ -121,7 +125,7 @@ def print_block_string(value: str, minimize: bool = False) -> str:
     escaped_value = value.replace('"""', '\\"""')
 
     # Expand a block string's raw value into independent lines.
-    lines = escaped_value.splitlines() or [""]
+    lines = _re_line_terminator.split(escaped_value)
     num_lines = len(lines)
     is_single_line = num_lines == 1
 
